@@ -317,6 +317,13 @@ def excluded_region(ctx):
         ctx.count("excluded_region:source_equals_sink:" + err_kind(o))
 
 
+def _summarise(ctx):
+    h = ctx.cov["histogram"]
+    for k in ("cert_checked_model", "cert_checked_impl", "r_prop_agree", "r_trace_agree"):
+        ctx.cov[k] = h.get(k, 0)
+    ctx.cov["timeouts"] = sum(v for k, v in h.items() if k.startswith("fail:") and ":no_return" in k)
+
+
 def run(ctx, budget):
     ctx.cov["rule"] = RULE
     big = ctx.tier == "thorough"
@@ -327,8 +334,10 @@ def run(ctx, budget):
     if not getattr(ctx, "_c08_excl", False):
         ctx._c08_excl = True
         excluded_region(ctx)
+    _summarise(ctx)
 
 
 def replay(ctx, body):
     ctx.cov["rule"] = RULE
     run_cases(ctx, [body["case"]])
+    _summarise(ctx)
